@@ -521,9 +521,10 @@ def lower9(ctx) -> List[Ob]:
         if txt == tree:
             out.append(ok("LOWER-9", cg.qualname, key, where, "all statements of the block"))
             continue
-        if isinstance(v, ast.BinOp) and isinstance(v.op, ast.Add) and A.unparse(v.left) == f"{tree}[:-1]" and isinstance(v.right, ast.List) and len(v.right.elts) == 1:
+        star = isinstance(v, ast.List) and len(v.elts) == 2 and isinstance(v.elts[0], ast.Starred) and A.unparse(v.elts[0].value) == f"{tree}[:-1]"
+        if star or (isinstance(v, ast.BinOp) and isinstance(v.op, ast.Add) and A.unparse(v.left) == f"{tree}[:-1]" and isinstance(v.right, ast.List) and len(v.right.elts) == 1):
             # the appended construct must be built from the block's last node
-            el = v.right.elts[0]
+            el = v.elts[1] if star else v.right.elts[0]
             src_ok = False
             cfg = ctx.cfg(cg)
             seen = set()
